@@ -114,7 +114,7 @@ def leaf_scan(h, spec, now):
             continue
         if (hs['traits'] & req) != req:
             continue
-        if spec['lease'] and not now + spec['lease'] + 1.0 < hs['valid_until']:
+        if spec['lease'] and not now + spec['lease'] + 5.0 < hs['valid_until']:     # margin: virtual time passes during the probe's cycles
             continue
         if np.any(demand > np.array(hs['cap'], dtype=float) - used[s]):
             continue
